@@ -1893,6 +1893,8 @@ pub fn run(tier: &str, seed: u64, only: Option<&str>) -> Run {
         run.notes.push("model lines skipped: built without feature p05m (c05_models does not compile against the current /repo)".to_owned());
         // taiko difficulty-object construction, colour / rhythm preprocessing (TKPRE lines, thin stream)
         crate::taikopre::run(&mut run, base_tier, seed, only, true);
+        // slider path mathematics (CURVE / CURVES lines, Model/Curve.lean)
+        crate::curve::run(&mut run, base_tier, seed, only);
     }
     let Ok(exe) = std::env::current_exe() else {
         run.fail("oracle:no-current-exe", "", "search", "current_exe unavailable".into(), String::new());
